@@ -88,7 +88,8 @@ func main() {
 		rn.kernelModelPhase()
 		rn.stressPhase()
 		rn.scenarioPhase([]string{"inherit-write", "inherit-read", "quietread-write", "quietread-create", "handover-edit", "handover-mutex",
-			"exclhold-read", "exclhold-edit", "exclhold-mutex", "exclhold-open", "exclhold-read+append", "exclhold-edit+sync"})
+			"exclhold-read", "exclhold-edit", "exclhold-mutex", "exclhold-open", "exclhold-read+append", "exclhold-edit+sync",
+			"fifohold-openfile", "fifohold-edit", "mutexperm-0444"})
 	} else {
 		if rn.st {
 			rn.faultPhase()
@@ -240,6 +241,10 @@ func (rn *runner) scenario(name string) scenarioResult {
 		return scenarioQuietRead(rn.self, rn.f.Work, parts[1])
 	case "handover":
 		return scenarioHandover(rn.self, rn.f.Work, parts[1])
+	case "fifohold":
+		return scenarioFifoHold(rn.self, rn.f.Work, parts[1])
+	case "mutexperm":
+		return scenarioMutexPerm(rn.self)
 	case "exclhold":
 		extra := 0
 		w := parts[1]
